@@ -19,7 +19,7 @@ func init() { Register(c11{}) }
 func (c11) ID() string    { return "C11" }
 func (c11) Level() string { return "fault_enumeration" }
 func (c11) Rule() string {
-	return "workload = seeded fault-free writer run (0..4 row groups, benign or random-byte strings, page size 1..8, three codecs, three shapes) producing a file of L bytes on the sim disk. Cases: the writer crashes at EVERY byte: every strict prefix 0..L-1 is opened and iterated with the documented client loop (files above 64 KiB: every cut in the last 4 KiB and within 8 bytes of each sink-call boundary plus a seeded sample). Source kind cycles through ReadSeeker; +ByteReader; +ByteReader+ReaderAt+WriterTo. Non-trivial = cut > 4 (more than the leading magic is durable); distinct = distinct (file digest, cut)."
+	return "workload = seeded fault-free writer run (any Add/Write/Close history incl. empty Writes and records pending at Close, 0..4 row groups, benign or random-byte strings, page size 1..8, three codecs, three shapes) producing a file of L bytes on the sim disk. Cases: the writer crashes at EVERY byte: every strict prefix 0..L-1 is opened and iterated with the documented client loop (files above 64 KiB: every cut in the last 4 KiB and within 8 bytes of each sink-call boundary plus a seeded sample). Source kind cycles through ReadSeeker; +ByteReader; +ByteReader+ReaderAt+WriterTo. Non-trivial = cut > 4 (more than the leading magic is durable); distinct = distinct (file digest, cut)."
 }
 func (c11) Assumptions() []string {
 	return []string{
@@ -29,7 +29,7 @@ func (c11) Assumptions() []string {
 	}
 }
 func (c11) Probes() []string {
-	return []string{"cut/page-header", "cut/page-body", "cut/footer", "cut/footer-len", "cut/tail-magic", "cut/clean-boundary", "cut/magic", "outcome/ctor-error", "rawbytes", "codec/gzip", "codec/snappy", "codec/uncompressed"}
+	return []string{"cut/page-header", "cut/page-body", "cut/footer", "cut/footer-len", "cut/tail-magic", "cut/clean-boundary", "cut/magic", "outcome/ctor-error", "rawbytes", "directed/trailer-coincidence-file", "codec/gzip", "codec/snappy", "codec/uncompressed"}
 }
 func (c11) Runs(tier string) int {
 	if tier == "thorough" {
@@ -40,7 +40,10 @@ func (c11) Runs(tier string) int {
 
 func (p c11) Run(runseed uint64, tier string, acc *Acc) []*core.Violation {
 	r := core.NewRng(runseed)
-	o := core.HistOpts{Shapes: allShapes, PageMin: 1, PageMax: 8, MinBatches: 0, MaxBatches: 4, MaxOps: 30, Profile: core.Benign, LargePct: 1, ManyPct: 1, ManyMax: 60, HugePct: 1}
+	o := core.HistOpts{Shapes: allShapes, PageMin: 1, PageMax: 8, MinBatches: 0, MaxBatches: 4, MaxOps: 30, Profile: core.Benign, LargePct: 1, ManyPct: 1, ManyMax: 60, HugePct: 1,
+		// any history a caller may issue produces "a valid file": include Writes with nothing pending and records
+		// pending at Close (what a writer does with them at Close decides which prefixes look complete)
+		EmptyWrites: true, PendingClose: true}
 	if tier == "thorough" {
 		o.MaxOps = 60
 	}
@@ -51,6 +54,15 @@ func (p c11) Run(runseed uint64, tier string, acc *Acc) []*core.Violation {
 		acc.Inc("rawbytes")
 	}
 	f, ok := genFile(r, o)
+	if r.Chance(1, 16) {
+		// directed arm: hunt for a file in which a crash point in the trailer matters
+		if hf := huntTrailerCoincidence(r); hf != nil {
+			f, ok = hf, true
+			acc.Inc("directed/trailer-coincidence-file")
+		} else {
+			acc.Inc("directed/trailer-coincidence-hunt-failed")
+		}
+	}
 	acc.Runs++
 	if !ok {
 		acc.Unusable++
@@ -199,4 +211,51 @@ func (p c11) Shrink(c *core.Case) []*core.Case {
 		}
 	}
 	return out
+}
+
+// huntTrailerCoincidence searches (seeded, bounded) for a valid file in which
+// the bytes of a prefix cut inside the 8-byte trailer would, read as "footer
+// length", point exactly at the real footer: the last four bytes of the thrift
+// footer, as a little-endian number, equal the footer length minus four. Only
+// for such files does it matter whether a reader looks at the trailing magic;
+// they are about one in 20 000 among random files, so the search is directed:
+// a thrift FileMetaData ends in [field header, zigzag(num_rows of the last row
+// group), STOP, STOP], so the footer length must be 26 + 512*n for a last row
+// group of n < 64 rows. The condition is evaluated on the bytes by the harness;
+// no reader is involved in the search.
+func huntTrailerCoincidence(r *core.Rng) *fileWL {
+	shape := allShapes[r.Intn(len(allShapes))]
+	sh := core.GetShape(shape)
+	for try := 0; try < 150; try++ {
+		g := r.Range(1, 9)
+		n := r.Range(1, 9)
+		w := &core.WriterSpec{Shape: shape, Page: r.Range(1, 8), Codec: core.Codecs[r.Intn(2)]} // gzip is slow and adds nothing to the search
+		for b := 0; b < g; b++ {
+			k := r.Range(1, 6)
+			if b == g-1 {
+				k = n
+			}
+			for i := 0; i < k; i++ {
+				w.Ops = append(w.Ops, core.AddOp(core.GenRec(r, sh.Type, core.Benign)))
+			}
+			w.Ops = append(w.Ops, core.WriteOp())
+		}
+		w.Ops = append(w.Ops, core.CloseOp())
+		ref, ok := refWrite(w)
+		if !ok {
+			return nil
+		}
+		d := ref.Sink.Data
+		if len(d) < 16 {
+			continue
+		}
+		flen := int(d[len(d)-8]) | int(d[len(d)-7])<<8 | int(d[len(d)-6])<<16 | int(d[len(d)-5])<<24
+		last := int(d[len(d)-12]) | int(d[len(d)-11])<<8 | int(d[len(d)-10])<<16 | int(d[len(d)-9])<<24
+		if last == flen-4 {
+			f := &fileWL{W: w, Ref: ref, Data: d, Want: core.Flatten(ref.Batches), Regions: sinkRegions(ref)}
+			f.Digest = core.HashBytes(append([]byte(w.HistoryString()), f.Data...))
+			return f
+		}
+	}
+	return nil
 }
